@@ -479,6 +479,8 @@ func fileChild(dir, name string, size int, seed int64, limit int, mode string) {
 	payload := filePayload(size, seed)
 	if mode == "ioerr" || mode == "treeioerr" || mode == "treeioerr-cache" {
 		signal.Ignore(syscall.SIGXFSZ)
+	} else if mode == "transient" {
+		// (handled below: the signal lifts the limit)
 	} else {
 		// the Go runtime turns SIGXFSZ into a plain EFBIG error; a crash needs the kernel's default action
 		// (terminate inside the write), so the disposition is reset to SIG_DFL behind the runtime's back
@@ -498,6 +500,18 @@ func fileChild(dir, name string, size int, seed int64, limit int, mode string) {
 		return
 	}
 	lim := syscall.Rlimit{Cur: uint64(limit), Max: uint64(limit)}
+	if mode == "transient" {
+		// a condition that passes: the write is cut short with an I/O error once, and the limit is gone a moment later
+		var old syscall.Rlimit
+		syscall.Getrlimit(syscall.RLIMIT_FSIZE, &old)
+		lim.Max = old.Max
+		ch := make(chan os.Signal, 1)
+		signal.Notify(ch, syscall.SIGXFSZ)
+		go func() {
+			<-ch
+			syscall.Setrlimit(syscall.RLIMIT_FSIZE, &old)
+		}()
+	}
 	if err := syscall.Setrlimit(syscall.RLIMIT_FSIZE, &lim); err != nil {
 		os.Exit(9)
 	}
@@ -787,7 +801,7 @@ func fileCrashRuns(seed int64, n int, scratch string, self string, out *json.Enc
 			sort.Ints(limits)
 		}
 		for _, limit := range limits {
-			for _, mode := range []string{"crash", "ioerr"} {
+			for _, mode := range []string{"crash", "ioerr", "transient"} {
 				id++
 				dir := filepath.Join(scratch, fmt.Sprintf("fc-%d", id))
 				os.MkdirAll(dir, 0755)
